@@ -1307,8 +1307,7 @@ func checkC12(p *Prog, res *Result, tier string) {
 	res.rule("C12-R2", "SupportTTL is consulted only by the scanner's expiry code", 2)
 	res.rule("C12-R3", "the in-process engine's iterator yields snapshot copies: live skip-list elements are dereferenced only under the store lock (C19-R3)", 4)
 
-	sub := newResult("C11")
-	checkC11(p, sub, tier)
+	sub := p.subResult("C11", tier)
 	for _, o := range sub.Obls {
 		if o.Rule == "C11-R1" || o.Rule == "C11-R2" || o.Rule == "C11-R5" || o.Rule == "C11-R6" || o.Rule == "C11-R7" {
 			res.add("C12-R0", o.Rule+" "+o.Construct, o.Status, o.Pos, o.Detail)
